@@ -18,15 +18,17 @@ Decided (E11 small domains + E3 selectors, on ktensor.py):
           weight * prod(factor scales) equals the original weight (its negation / multiple where documented), lists of
           factors carry the whole weight, absorbed weights are exactly one and repaired weights are non-negative;
           equality is decided by sympy normalisation for symbolic N and refuted only by an exact rational witness
+  NORMARG every column norm taken by normalize is np.linalg.norm(.., ord=normtype) - on the single-mode path as on the all-modes path
+          ("unit-norm columns in the REQUESTED norm"; the tensor is preserved with any norm, so SCALE cannot see a dropped `ord`)
 Cross-reference: score / symmetrize / tolist work on copies — C05.
-Not decided: unit norms, sorted weights, numerical invariance of full().
+Not decided: unit norms beyond NORMARG, sorted weights, numerical invariance of full().
 """
 from __future__ import annotations
 
 import ast
 from typing import Dict, List, Optional, Tuple
 
-from ..model import Program, dotted, kwarg, const, AnalysisError
+from ..model import Program, dotted, kwarg, const, NOCONST, AnalysisError
 from ..report import Result
 from .. import eo
 from . import eo_common as E
@@ -703,12 +705,40 @@ def absorb(prog: Program, res: Result) -> None:
 def check(prog: Program, res: Result, tier: str) -> None:
     res.explanation = __doc__.split("\n\n", 1)[1]
     res.assumptions = ["breakpt + 1 is the number of negatively correlated modes (index + 1)", "np.floor / int keep integer values integer"]
-    res.floors = {"PARITY": 3, "PS-k": 8, "EO-3": 4, "ABSORB": 3, "SCALE": 20}
+    res.floors = {"PARITY": 3, "PS-k": 8, "EO-3": 4, "ABSORB": 3, "SCALE": 20, "NORMARG": 2}
     parity(prog, res)
     ps_k(prog, res)
     eo3(prog, res)
     absorb(prog, res)
     scale(prog, res)
+    norm_order(prog, res)
+
+
+def norm_order(prog: Program, res: Result) -> None:
+    """ktensor.normalize(normtype=p): every column norm the method takes is the p-norm - on the single-mode path as on the all-modes path
+    (the tensor is preserved with any norm, which is why the scale algebra cannot see a dropped `ord`: what breaks is that the columns have
+    unit norm in the REQUESTED norm)."""
+    fi = kfunc(prog, "normalize")
+    params = fi.params()
+    if "normtype" not in params:
+        raise AnalysisError("ktensor.normalize has no normtype parameter any more")
+    calls = [c for c in ast.walk(fi.node) if isinstance(c, ast.Call) and (dotted(c.func) or "").split(".")[-1] == "norm"
+             and (dotted(c.func) or "").split(".")[0] in ("np", "numpy", "norm", "linalg")]
+    if not calls:
+        res.undecided("NORMARG", fi.short, "column norms are taken in the requested norm", prog.loc(fi), "no numpy norm call found")
+    for c in calls:
+        desc = f"column norms are taken in the requested norm: {ast.unparse(c)[:60]}"
+        o = kwarg(c, "ord")
+        if o is None and len(c.args) >= 2:
+            o = c.args[1]
+        if o is None:
+            res.bad("NORMARG", fi.short, desc, prog.loc(fi, c), "no `ord` is passed: numpy takes the 2-norm whatever `normtype` says")
+        elif fi.rtext(o).replace(" ", "") == "normtype":
+            res.ok("NORMARG", fi.short, desc, prog.loc(fi, c))
+        elif const(o) is not NOCONST:
+            res.bad("NORMARG", fi.short, desc, prog.loc(fi, c), f"the order is the constant {ast.unparse(o)}, not the `normtype` argument")
+        else:
+            res.undecided("NORMARG", fi.short, desc, prog.loc(fi, c), f"order `{ast.unparse(o)}` not recognised")
 
 
 # ------------------------------------------------------------------ SCALE (E8)
